@@ -25,7 +25,7 @@ from .onion import IOnionClient, FilesystemOnionService, FilesystemAuthenticated
 from .onion import DISCARD
 from .onion import AuthStealth, AuthBasic
 from .onion import EphemeralOnionService
-from .onion import _await_descriptor_upload
+from .onion import _await_descriptor_upload, _abandon_descriptor_wait
 from .onion import _parse_client_keys
 from .util import _Version
 
@@ -465,13 +465,18 @@ class EphemeralHiddenService:
         # this is what it supports and that's that:
         ports = ' '.join(map(lambda x: 'Port=' + x.strip(), self._ports))
         cmd = 'ADD_ONION %s %s' % (self._key_blob, ports)
-        ans = yield protocol.queue_command(cmd)
-        ans = find_keywords(ans.split('\n'))
-        self.hostname = ans['ServiceID'] + '.onion'
-        if self._key_blob.startswith('NEW:'):
-            self.private_key = ans['PrivateKey']
-        else:
-            self.private_key = self._key_blob
+        try:
+            ans = yield protocol.queue_command(cmd)
+            ans = find_keywords(ans.split('\n'))
+            self.hostname = ans['ServiceID'] + '.onion'
+            if self._key_blob.startswith('NEW:'):
+                self.private_key = ans['PrivateKey']
+            else:
+                self.private_key = self._key_blob
+        except Exception:
+            # no service, so no descriptor to wait for
+            _abandon_descriptor_wait(upload_d)
+            raise
 
         log.msg('Created hidden-service at', self.hostname)
 
